@@ -625,4 +625,56 @@ example : resolveValue { exEnv .fixed with defaultScheme := some ['e', 'n', 'v']
   C12_dollar_in_name_error_default _ _ [] [] ['e', 'n', 'v'] ['a', '$', 'b'] (by decide) (by decide) rfl (by decide)
     (by decide) (by decide)
 
+
+/-! # audit issue 2: the flatten/unflatten round trip and `resolve` end to end -/
+
+/-- AUDIT ISSUE 2: un-flattening the flattened leaves of a tree with unique keys — **in any order** (`Resolve` uses the
+sorted key order) — gives a tree that holds, under every leaf path, exactly what the original tree holds there -/
+theorem C12_unflatten_flatten_lookup (m : KVs) (hn : HNK m) (L : List Leaf) (hp : L.Perm (flatten [] m)) :
+    ∀ a ∈ flatten [] m, lookupPath a.1 (unflatten L) = some a.2 ∧ lookupPath a.1 m = some a.2 := by
+  intro a ha
+  have hsym : ∀ {x y : Leaf}, Incomp x.1 y.1 → Incomp y.1 x.1 := fun h => h.symm
+  have hpw : L.Pairwise (fun a b => Incomp a.1 b.1) :=
+    (hp.pairwise_iff hsym).2 (flatten_pairwise m hn)
+  have hne : ∀ b ∈ L, b.1 ≠ [] := by
+    intro b hb
+    obtain ⟨k, p, h, -, -⟩ := flatten_leaf m hn b (hp.mem_iff.1 hb)
+    rw [h]; simp
+  obtain ⟨_, _, _, _, hl⟩ := flatten_leaf m hn a ha
+  exact ⟨unflatten_lookup L hpw hne a (hp.mem_iff.2 ha), hl⟩
+
+/-- `Resolve` END TO END: if it succeeds with `m`, then for every leaf `(path, v)` of the right-biased merge of the URI list,
+`m` holds under the same path exactly `resolveValue v` (expansion to a fixed point + un-escaping of the merged value) —
+through `asConf`, flatten, the sorted key order, the per-key loop and unflatten -/
+theorem C12_resolve_lookup (env : Env) (srcs : List Val) (ms : List KVs) (m : KVs)
+    (h : resolve env srcs = .ok m) (hm : srcs.mapM asConf = some ms) (hs : ∀ s ∈ ms, HNK s) :
+    ∀ a ∈ flatten [] (mergeSources ms), ∃ v', resolveValue env a.2 = .ok v' ∧ lookupPath a.1 m = some v' := by
+  obtain ⟨ms', leaves, hm', hperm, hpt, rfl⟩ := C12_resolve_ok env srcs m h
+  rw [hm] at hm'
+  obtain rfl : ms = ms' := Option.some.inj hm'
+  have hn := HNK_mergeSources ms hs
+  intro a ha
+  have hsym : ∀ {x y : Leaf}, Incomp x.1 y.1 → Incomp y.1 x.1 := fun h => h.symm
+  have hpwS : (sortedLeaves (mergeSources ms)).Pairwise (fun a b => Incomp a.1 b.1) :=
+    (hperm.pairwise_iff hsym).2 (flatten_pairwise _ hn)
+  have hpwO := pointwise_pairwise env _ _ hpt hpwS
+  obtain ⟨t1, t2⟩ := pointwise_transfer env _ _ hpt
+  have hneO : ∀ o ∈ leaves, o.1 ≠ [] := by
+    intro o ho
+    obtain ⟨l, hl, e⟩ := t1 o ho
+    obtain ⟨k, p, hkp, -, -⟩ := flatten_leaf _ hn l (hperm.mem_iff.1 hl)
+    rw [e, hkp]; simp
+  obtain ⟨o, ho, e1, e2⟩ := t2 a (hperm.mem_iff.2 ha)
+  refine ⟨o.2, e2, ?_⟩
+  rw [← e1]
+  exact unflatten_lookup leaves hpwO hneO o ho
+
+def exTree : KVs :=
+  .cons ['b'] (.int 1) (.cons ['a'] (.map (.cons ['y'] (.str ['v']) (.cons ['x'] (.map .nil) .nil))) .nil)
+
+/-- the sorted order differs from the original order; the lookups agree -/
+example : ∀ a ∈ flatten [] exTree, lookupPath a.1 (unflatten (sortedLeaves exTree)) = some a.2 := fun a ha =>
+  (C12_unflatten_flatten_lookup exTree (by simp [exTree, HNK, HN, KVs.keys]) _ (List.mergeSort_perm _ _) a ha).1
+example : (flatten [] exTree).map (·.1) = [[['b']], [['a'], ['y']], [['a'], ['x']]] := by decide
+
 end OtelVerif.C12
